@@ -185,3 +185,40 @@ class _NoIter:
     def __iter__(self):
         raise core.OutsideSubset("python-level iteration over the q-point list (size is data); q_weights is under a "
                                  "separate size-enumerated contract")
+
+
+def duck_of(cls, **attrs):
+    """an object that is `self` for the real methods of `cls` without running its __init__: the given attributes shadow
+    whatever the class defines under those names (properties included), everything else -- helper methods a refactoring
+    may introduce -- resolves to the real class.  Plain functions given as attributes are called without self, as they
+    would be on an instance attribute."""
+    import types as _types
+    ns = {}
+    for k, v in attrs.items():
+        ns[k] = staticmethod(v) if isinstance(v, (_types.FunctionType, _types.LambdaType, _types.BuiltinFunctionType)) else v
+
+    def __setattr__(self, name, value):
+        d = getattr(type(self), name, None)
+        if hasattr(type(d), "__set__") or isinstance(d, property):
+            setattr(type(self), name, value)
+        else:
+            object.__setattr__(self, name, value)
+    ns["__setattr__"] = __setattr__
+    ns["__init__"] = lambda self, *a, **k: None
+    if "__getattr__" in cls.__dict__ or any("__getattr__" in b.__dict__ for b in cls.__mro__[1:-1]):
+        real_getattr, busy = cls.__getattr__, set()
+
+        def __getattr__(self, name):
+            # a delegating __getattr__ (self.qha_calculator.<name>) must not recurse when its delegate is absent too
+            if name in busy:
+                raise AttributeError(name)
+            busy.add(name)
+            try:
+                return real_getattr(self, name)
+            except RecursionError:
+                raise AttributeError(name)
+            finally:
+                busy.discard(name)
+        ns["__getattr__"] = __getattr__
+    sub = type("DuckOf" + cls.__name__, (cls,), ns)
+    return object.__new__(sub)
